@@ -26,6 +26,8 @@ import (
 	"sort"
 	"strconv"
 	"sync"
+	"sync/atomic"
+	"syscall"
 
 	"github.com/tdewolff/minify/v2"
 	"github.com/tdewolff/parse/v2"
@@ -313,6 +315,15 @@ func main() {
 		}
 		cases = append(cases, c)
 	})
+	// The command minifier under test never closes (or removes) the temp files it creates for $in/$out; their
+	// descriptors are only released by the os.File finalizers.  Not a subject of C15, but the driver must survive
+	// hundreds of thousands of calls: raise the descriptor limit and let the collector run regularly.
+	var lim syscall.Rlimit
+	if syscall.Getrlimit(syscall.RLIMIT_NOFILE, &lim) == nil && lim.Cur < lim.Max {
+		lim.Cur = lim.Max
+		syscall.Setrlimit(syscall.RLIMIT_NOFILE, &lim)
+	}
+	var done int64
 	results := make([]map[string]interface{}, len(cases))
 	var wg sync.WaitGroup
 	next := make(chan int)
@@ -322,6 +333,9 @@ func main() {
 			defer wg.Done()
 			for i := range next {
 				results[i] = runCase(cases[i])
+				if atomic.AddInt64(&done, 1)%32 == 0 {
+					runtime.GC()
+				}
 			}
 		}()
 	}
